@@ -22,7 +22,7 @@ OpNames == <<"update_ibi_pot", "dist_boltzmann_invert", "table_linearop", "table
              "table_combine_sum", "merge_tables", "add_POT", "table_scale", "table_integrate",
              "resample_derivative", "integrate_derivative", "potential_shift", "table_smooth",
              "table_extrapolate", "potential_extrapolate", "table_get_value", "table_change_flag",
-             "table_dummy", "table_average", "dist_adjust", "table_switch_border", "resample_same">>
+             "table_dummy", "table_average", "dist_adjust", "table_switch_border", "resample_same", "average_linearop">>
 OpIdx(op) == CHOOSE i \in 1..Len(OpNames) : OpNames[i] = op
 
 \* ---- generators ------------------------------------------------------------------------------
@@ -47,8 +47,21 @@ RECURSIVE GapG(_, _)
 GapG(sd, n) == IF n = 1 THEN <<0>> ELSE LET p == GapG(sd, n - 1) IN Append(p, p[n - 1] + 1 + Pick(sd, 1200 + n, 3))
 GOf(sd, n) == IF Pick(sd, 11, 2) = 0 THEN UniformG(n) ELSE GapG(sd, n)
 UniformOnly == {"table_switch_border", "table_dummy", "resample_same"}
+\* input-file variants that must not matter (CsgFunctions.pm readin_table: "the last column is the flag"):
+\*   e4  : the input tables carry an error column, x y yerr flag (as written by table_average.sh / csg_fmatch), and the
+\*         tool is run WITHOUT --with-errors: same result as for the 3-column table with the same x, y, flag
+\*   zsp : how an exact zero is spelt in the input files
+\*   twice: the operator is idempotent: the script is run again on its own output, script(script(t)) = script(t)
+FourColOps == {"update_ibi_pot", "dist_boltzmann_invert", "table_linearop", "table_linearop_x", "table_combine",
+               "table_combine_sum", "merge_tables", "add_POT", "table_scale", "table_integrate", "integrate_derivative",
+               "potential_shift", "table_smooth", "table_extrapolate", "potential_extrapolate", "table_get_value",
+               "table_average", "dist_adjust", "table_switch_border"}
+IdemOps == {"potential_shift", "dist_adjust", "table_change_flag", "table_extrapolate", "potential_extrapolate", "merge_tables"}
 Base(op, n, s, sd) == [op |-> op, n |-> n, seed |-> s, x0 |-> Pick(sd, 1, 3), h |-> HOf(sd),
-                       g |-> IF op \in UniformOnly THEN UniformG(n) ELSE GOf(sd, n)]
+                       g |-> IF op \in UniformOnly THEN UniformG(n) ELSE GOf(sd, n),
+                       e4 |-> op \in FourColOps /\ Pick(sd, 14, 3) = 0, ye |-> RN(1 + Pick(sd, 15, 9), 4),
+                       zsp |-> PickSeq(sd, 17, <<"0.0", "0", "-0", "0", "-0.0", "0e0">>),
+                       twice |-> op \in IdemOps /\ Pick(sd, 16, 2) = 0]
 XS(c) == XSeq(c.x0, c.h, c.g)
 
 Case(op, n, s) ==
@@ -106,7 +119,11 @@ Case(op, n, s) ==
     [] op = "potential_shift" ->
          LET f0 == RFlags(sd, 600, n)
              ki == 1 + Pick(sd, 5, n)
-         IN b @@ [t |-> Tab(RY(sd, 100, n), [f0 EXCEPT ![ki] = "i"]),
+             f1 == [f0 EXCEPT ![ki] = "i"]
+             y0 == RY(sd, 100, n)
+             pre == Pick(sd, 7, 2) = 0       \* an already shifted potential: the minimum of the 'i' points is exactly 0
+             zi == MinY(Tab(y0, f1), TRUE, 1, n)
+         IN b @@ [t |-> Tab(IF pre THEN [k \in 1..n |-> RSub(y0[k], zi)] ELSE y0, f1), pre |-> pre,
                   type |-> PickSeq(sd, 6, <<"non-bonded", "", "bond", "angle", "dihedral", "bonded">>)]
     [] op \in {"table_smooth", "table_change_flag", "dist_adjust"} -> b @@ [t |-> RTab(sd, 100, n)]
     [] op = "table_extrapolate" ->
@@ -134,6 +151,9 @@ Case(op, n, s) ==
          IN b @@ [ts |-> [j \in 1..c |-> Tab(RY(sd, 100 * j, n), [k \in 1..n |-> "i"])]]
     [] op = "table_switch_border" ->
          b @@ [t |-> Tab(RY(sd, 100, n), FlagFam(sd, 600, n, 0)), w |-> 1 + Pick(sd, 5, Min2(3, n - 1))]
+    [] op = "average_linearop" ->         \* pipeline: table_average.sh writes x mean error flag, the next tool reads it
+         LET c == 2 + Pick(sd, 5, 3)
+         IN b @@ [ts |-> [j \in 1..c |-> Tab(RY(sd, 100 * j, n), [k \in 1..n |-> "i"])], a |-> Coef(sd, 6), b |-> Coef(sd, 7)]
     [] op = "resample_same" ->           \* >= 40 points, DECIMAL step, flag transitions i->o, i->u, u->i at late points
          LET nn == 40 + 5 * n + Pick(sd, 5, 21)
              p == 17 + Pick(sd, 6, nn - 25)
@@ -181,6 +201,8 @@ Expect(c) ==
     [] c.op = "table_dummy" -> Dummy(c.n, c.y1, c.y2)
     [] c.op = "table_average" -> Average(c.ts)
     [] c.op = "table_switch_border" -> SwitchBorder(c.t, c.n - c.w, c.w)
+    [] c.op = "average_linearop" ->       \* the averaged points are valid ('i'): --withflag i operates on all of them
+         LinearOp(Tab(Average(c.ts).y, [k \in 1..c.n |-> "i"]), c.a, c.b, "i")
 
 \* ---- state machine: phase 0 = chosen, phase 1 = evaluated (so that the workers, not the single
 \* initial-state thread, do the work; README gotcha) ----------------------------------------------
@@ -353,6 +375,14 @@ SameGrid ==
          [] o.kind = "squares" -> Len(o.y2) = m
          [] o.kind = "avg" -> Len(o.y) = m /\ Len(o.e2) = m
          [] OTHER -> TRUE
+
+\* operators that are idempotent by their documented meaning: applying them to their own result changes nothing
+\* (the check executes exactly this relation with the real scripts when cs.twice)
+Again(c) == LET o == Expect(c) IN
+            IF c.op = "merge_tables" THEN [c EXCEPT !.dst = Tab(o.y, o.f)] ELSE [c EXCEPT !.t = Tab(o.y, o.f)]
+Idempotent ==
+  (ph = 1 /\ cs.op \in IdemOps) =>
+     LET o == Expect(cs) o2 == Expect(Again(cs)) IN o2.y = o.y /\ o2.f = o.f
 
 \* the flag column only changes where the documentation says so
 FlagsAsStated ==
